@@ -176,13 +176,20 @@ def norm_field(f):
     return f
 
 
+def path_kind(p):
+    return "iregex" if p.startswith("~*") else "regex" if p.startswith("~") else "exact" if p.startswith("=") else "prefix"
+
+
 def signature(c):
     """what a finding is matched on: the (normalized) field and, for the leaves of a route, the context selectors that decide
-    which validator / rendering site applies: kind of the route path and kind of location (harness leafContext)"""
+    which validator / rendering site applies: kind of the route path, kind of location, kind of action (harness leafContext).
+    For the route path itself the path kind is that of the INJECTED value (the value chooses its own validator)."""
     sig = {"kind": "injection", "field": norm_field(c["field"])}
-    m = re.match(r'^vsr?:(prefix|regex|iregex|exact):([a-z+-]+):up=', c.get("ctx") or "")
+    m = re.match(r'^vsr?:(prefix|regex|iregex|exact):([a-z+-]+):up=[a-z-]+:act=([a-z-]+)', c.get("ctx") or "")
     if m:
-        sig["path_kind"], sig["loc"] = m.group(1), m.group(2)
+        sig["path_kind"], sig["loc"], sig["action"] = m.group(1), m.group(2), m.group(3)
+        if sig["field"] == "Route.path":
+            sig["path_kind"] = path_kind(bytes_of(c.get("value")).decode("latin1"))
     return sig
 
 
